@@ -221,6 +221,41 @@ DescSk(cls) ==
         Msg("sfield", <<"smf">>), S(Field(26, "sfield", <<"f">>, 0, "uint8")),     \* 26,27
         S(Msg("smessage", <<"sm">>)), Field(28, "f", <<"f">>, 0, "uint8") >>       \* 28,29
 
+\* ------------------------------------------------- case-variant references --
+\* SBE looks types up case-insensitively: every kind of reference to a type,
+\* spelled in another letter case than the declaration (`tname` / `prim` / `dim`
+\* / `hdr` / `vref` carry the reference text).  Every reference kind sits in a
+\* container of its own.
+TRef(e, txt) == [e EXCEPT !.tname = txt]
+SkCase ==
+  << PEnum("decl", <<"Side">>, "uint8"), EVal(1, "v", <<"Buy">>, "1"), EVal(1, "v", <<"Sell">>, "2"),     \* 1,2,3
+     PSet("decl", <<"Flags">>, "uint8"), Choice(4, "c", <<"Hot">>, 0),                                   \* 4,5
+     PComp("decl", <<"Px">>), IType(6, "m", <<"mant">>, "int32", "required"),                            \* 6,7
+     PType("decl", <<"Qty">>, "uint32", "required"),                                                     \* 8
+     [PType("decl", <<"Magic">>, "uint16", "constant") EXCEPT !.const = "777"],                          \* 9
+     PType("decl", <<"U16t">>, "uint16", "required"),                                                    \* 10
+     PEnum("enum_encodingType", <<"Ecase">>, "u16T"), EVal(11, "v", <<"One">>, "1"),                     \* 11,12
+     PSet("set_encodingType", <<"Scase">>, "U16T"), Choice(13, "c", <<"Bit">>, 3),                       \* 13,14
+     [PType("type_valueRef", <<"Kside">>, "uint8", "constant") EXCEPT !.vref = "SIDE.Sell"],             \* 15
+     PComp("ref_type", <<"Refs">>),                                                                      \* 16
+     TRef(Ref(16, "r", <<"r_enum">>, 1), "SIDE"), TRef(Ref(16, "r", <<"r_set">>, 4), "flags"),           \* 17,18
+     TRef(Ref(16, "r", <<"r_comp">>, 6), "PX"), TRef(Ref(16, "r", <<"r_scalar">>, 8), "qty"),            \* 19,20
+     TRef(Ref(16, "r", <<"r_const">>, 9), "MAGIC"), TRef(Ref(16, "r", <<"r_kside">>, 15), "kside"),      \* 21,22
+     [Msg("field_type", <<"m_field">>) EXCEPT !.hdr = "MESSAGEHEADER"],                                  \* 23
+     TRef(Field(23, "f", <<"f_enum">>, 1, ""), "SIDE"), TRef(Field(23, "f", <<"f_set">>, 4, ""), "FLAGS"),   \* 24,25
+     TRef(Field(23, "f", <<"f_comp">>, 6, ""), "px"), TRef(Field(23, "f", <<"f_scalar">>, 8, ""), "QTY"),    \* 26,27
+     Msg("const_field_enum", <<"m_kenum">>),                                                             \* 28
+     [TRef(Field(28, "k", <<"k">>, 1, ""), "SIDE") EXCEPT !.pres = "constant", !.vref = "side.Sell"],    \* 29
+     Msg("const_field_prim", <<"m_kprim">>),                                                             \* 30
+     [Field(30, "k", <<"k">>, 0, "uint8") EXCEPT !.pres = "constant", !.vref = "SIDE.Buy"],              \* 31
+     Msg("const_type_field", <<"m_ktype">>),                                                             \* 32
+     [TRef(Field(32, "k", <<"k">>, 9, ""), "magic") EXCEPT !.pres = ""],                                 \* 33
+     [TRef(Field(32, "k2", <<"k2">>, 15, ""), "KSIDE") EXCEPT !.pres = ""],                              \* 34
+     Msg("dimensionType", <<"m_group">>), [Group(35, "g", <<"g">>) EXCEPT !.dim = "GROUPSIZEENCODING"],  \* 35,36
+     TRef(Field(36, "f", <<"gf_enum">>, 1, ""), "side"),                                                 \* 37
+     [TRef(Field(36, "k", <<"gk">>, 1, ""), "sIDE") EXCEPT !.pres = "constant", !.vref = "Side.Buy"],    \* 38
+     Msg("data_type", <<"m_data">>), [Data(39, "d", <<"d">>) EXCEPT !.dim = "VARDATAENCODING"] >>        \* 39,40
+
 \* -------------------------------------------------------------- blockLength --
 \* A message / group whose block is `n` bytes long, with the header field that
 \* has to carry that number being `hprim`.  When n does not fit, the schema
